@@ -418,6 +418,30 @@ func genUnit(r *rng, kind string, s string) unit {
 		}
 		u.use = fmt.Sprintf("len(k_%s())", s)
 		sens("", "40030", "40031", "constant next to a set / dict of long strings")
+	case "eqdistinct":
+		// edits between values that starlark equality cannot tell apart but the function can (defect D25): the
+		// fingerprint must change AND the engine must re-run the target
+		switch r.below(6) {
+		case 0:
+			u.defs = fmt.Sprintf("X_%s = 1\ndef k_%s():\n    return str(X_%s)\n", s, s, s)
+			sens("", fmt.Sprintf("X_%s = 1\n", s), fmt.Sprintf("X_%s = 1.0\n", s), "global 1 becomes 1.0 (equal for ==, printed differently)")
+		case 1:
+			u.defs = fmt.Sprintf("X_%s = 0.0\ndef k_%s():\n    return str(X_%s)\n", s, s, s)
+			sens("", fmt.Sprintf("X_%s = 0.0\n", s), fmt.Sprintf("X_%s = -0.0\n", s), "global 0.0 becomes -0.0 (equal for ==, printed differently)")
+		case 2:
+			u.defs = fmt.Sprintf("A_%s = [40030]\nP_%s = [A_%s, A_%s]\ndef k_%s():\n    return len(P_%s)\n", s, s, s, s, s, s)
+			sens("", fmt.Sprintf("P_%s = [A_%s, A_%s]\n", s, s, s), fmt.Sprintf("P_%s = [A_%s, [40030]]\n", s, s), "one shared list becomes two equal lists")
+		case 3:
+			u.defs = fmt.Sprintf("def k_%s():\n    v_%s = 2\n    return str(v_%s)\n", s, s, s)
+			sens("", fmt.Sprintf("    v_%s = 2\n", s), fmt.Sprintf("    v_%s = 2.0\n", s), "constant 2 in a function body becomes 2.0")
+		case 4:
+			u.defs = fmt.Sprintf("D_%s = {1: \"a\", 3: [40030]}\ndef k_%s():\n    return str(D_%s)\n", s, s, s)
+			sens("", fmt.Sprintf("D_%s = {1: \"a\",", s), fmt.Sprintf("D_%s = {1.0: \"a\",", s), "dict key 1 becomes 1.0")
+		default:
+			u.defs = fmt.Sprintf("def h_%s(x=1, y=(0.0, [1])):\n    return str(x) + str(y)\ndef k_%s():\n    return h_%s()\n", s, s, s)
+			sens("", fmt.Sprintf("def h_%s(x=1, y=(0.0, [1])):\n", s), fmt.Sprintf("def h_%s(x=1.0, y=(-0.0, [1.0])):\n", s), "default parameter values 1, 0.0 become 1.0, -0.0")
+		}
+		u.use = fmt.Sprintf("k_%s()", s)
 	case "sharedhelper":
 		// loaded by two packages; no nested load (a module in the middle of a nested load that is waited for by a
 		// second loader is defect D4 of the module loader, area Loader)
@@ -450,7 +474,7 @@ func (u *unit) rebase(k int) {
 var unitKinds = []string{"const", "const", "global", "container", "container", "container", "shared", "fact", "mutual", "closure",
 	"defaults", "nested", "cyclic", "cyclic", "deep", "deep", "predeclared", "environ", "flag", "targetref", "cache", "labels", "helper",
 	"fncontainer", "lambdacycle", "samename", "kwonly", "signature", "builtinalias", "values", "fnvalues", "codecycle",
-	"recshared", "recshared", "hashed", "hashed"}
+	"recshared", "recshared", "hashed", "hashed", "eqdistinct", "eqdistinct"}
 
 // Not generated: "freevarrec" (a nested function that calls itself through a free variable). Such a project
 // does not load: starlark.ExecFile freezes the module's globals and (*Function).Freeze / (*cell).Freeze of the
